@@ -27,7 +27,7 @@ MIRRORS = [("python/eups/table.py", "Action.execute_envPrepend"), ("python/eups/
            ("python/eups/Eups.py", "Eups.unsetEnv")]
 
 DELIMS = [":", ":", ":", ":", ";", ",", " ", "|", "-", "::", ".", "+", "*", "?"]
-ATOMS = ["a", "b", "/x/y", "q", "c d", "/opt/p/1.0/bin", "zz"]
+ATOMS = ["a", "b", "/x/y", "q", "c d", "/opt/p/1.0/bin", "zz", "$FOO/../lib", "$BAR"]   # brace-less $NAME is NOT a reference for eups
 VARS = ["V", "W"]
 
 
